@@ -878,6 +878,14 @@ def _ml_run(name, kind):
         own = float(lh.likelihood_infinite(npar["SD"], npar["TS"])) if inf_only else \
             float(lh.likelihood_total(npar["SD"], npar["TS"], npar["k_1"], npar["ND"], npar["TN"]))
         la = ll_of(rows, ra)
+        if own == -math.inf and math.isfinite(la) and ra["SD"] > 0 and ra["TS"] > 0 and ra["TS"] != 1.0:
+            # the library forms log(1 - cdf) for a run-out, which is -inf as soon as the run-out is > 8.2 standard deviations
+            # above SD (cdf rounds to 1).  With a pearl-chain TS ~ 1.005 this already holds at the Elementary start: the
+            # search cannot move and the start is returned.  Not a wrong likelihood value: an underflow of an improbable one.
+            sS = abs(math.log10(ra["TS"]) / _Z90)
+            if any((not rows[i][2]) and (math.log10(rows[i][0]) - math.log10(ra["SD"])) / sS > 8.2 for i in s["infinite"]):
+                ctx.label("library_likelihood_underflow")
+                own = la
         if math.isfinite(la) and not abs(own - la) <= 1e-6 * (1.0 + abs(la)):
             raise Violation("%s: library likelihood %r at its estimate %r, reference %r" % (name, own, ra, la), bucket="%s:likelihood_value" % name)
         # ---- the ML estimate is not worse than the Elementary estimate it starts from --------------------------------
